@@ -109,6 +109,35 @@ def check_class(acc, item):
                               case={'cls': qname, 'kind': kind, 'path': list(path)})
             else:
                 owner[id(o)] = (kind, path)
+    # ---- the instances' own storage (everything in __dict__, not only the declared members): no mutable container is the
+    #      same object in two instances; writing the plain attribute `node` of one leaves the others alone
+    kinds = list(instances)
+    for i, ka in enumerate(kinds):
+        for kb in kinds[i + 1:]:
+            a, b = instances[ka], instances[kb]
+            for attr, va in list(vars(a).items()):
+                vb = vars(b).get(attr)
+                acc.transition()
+                if va is vb and isinstance(va, (dict, list, set, bytearray)):
+                    acc.violation(f'instance-storage-shared/{qname}/{ka}+{kb}/{attr}',
+                                  {'class': qname, 'instances': [ka, kb], 'attribute': attr, 'type': type(va).__name__},
+                                  case={'cls': qname, 'kind': kb, 'path': [attr]})
+    if hasattr(proto, 'node'):
+        for ka in kinds:
+            marker = object()
+            before = {k: getattr(v, 'node', None) for k, v in instances.items() if k != ka}
+            old_node = getattr(instances[ka], 'node', None)
+            try:
+                instances[ka].node = marker
+            except Exception:  # noqa: BLE001
+                continue
+            for kb, node_before in before.items():
+                acc.evals()
+                if getattr(instances[kb], 'node', None) is not node_before:
+                    acc.violation(f'other-instance-changed/{qname}/{ka}->{kb}/node',
+                                  {'class': qname, 'written_on': ka, 'changed': kb, 'attribute': 'node'},
+                                  case={'cls': qname, 'kind': ka, 'path': ['node']})
+            instances[ka].node = old_node
     # ---- writes: a nested write on one instance changes neither a later fresh instance nor any other instance
     n_writes = 0
     for kind in list(instances):
